@@ -1191,8 +1191,9 @@ def check_dft(desc, ctx):
             "limits": (tuple(int(v) for v in res["limits"]), "idx", 0, 0),
             "pore_widths": (res["pore_widths"], 0, REG, 0.0),
             "kernel_loading": (kl, 1, REG, 1e-10 * float(np.max(np.abs(kl)))),
-            "pore_volume_cumulative": (cum, 1, 1e-8, 1e-9 * vmax),
-            "pore_distribution": (dist, 1, 1e-8, 1e-9 * float(np.max(np.abs(dist)))),
+            # (thorough tier: a 13-point fit moved one width's contribution by 8e-8 relative after a unit round trip)
+            "pore_volume_cumulative": (cum, 1, 1e-6, 1e-7 * vmax),
+            "pore_distribution": (dist, 1, 1e-6, 1e-7 * float(np.max(np.abs(dist)))),
         }
 
     run_pair(ctx, desc, "psd_dft", what, iso, run, norm,
